@@ -346,6 +346,10 @@ pub fn gen_median(rng: &mut Rng, tier: &Tier, acc_every: bool) -> Vec<Case> {
         }
     }
     cases.extend(small_int_cases(rng, tier, &["median"]));
+    {
+        let n = *rng.pick(&[2usize, 3, 4, 5, 8]);
+        cases.extend(long_cases(rng, &[format!("median N={}", n)]));
+    }
     // (d) widths beyond the range of a small index type
     for &n in WIDE_WIDTHS.iter() {
         for _ in 0..tier.n(1, 3) {
@@ -358,6 +362,22 @@ pub fn gen_median(rng: &mut Rng, tier: &Tier, acc_every: bool) -> Vec<Case> {
 }
 
 pub const WIDE_WIDTHS: [usize; 4] = [255, 256, 257, 300];
+
+/// more samples through ONE instance than a 16-bit counter can count ("all sequence lengths")
+pub const LONG_RUN: usize = 65_536 + 300;
+
+/// one long run per given construction line; the model driver keeps a bounded history for these (`long`)
+fn long_cases(rng: &mut Rng, news: &[String]) -> Vec<Case> {
+    let mut cases = Vec::new();
+    for new in news {
+        let mut c = vec![format!("new 1 {}", new), "long 1 1024".to_string()];
+        for _ in 0..LONG_RUN {
+            c.push(format!("f 1 {}", rng.range(-9, 9)));
+        }
+        cases.push(c);
+    }
+    cases
+}
 
 /// the order-only filters at `u8` and `i8`, ends of the range included
 fn small_int_cases(rng: &mut Rng, tier: &Tier, kinds: &[&str]) -> Vec<Case> {
@@ -465,6 +485,10 @@ pub fn gen_mean(rng: &mut Rng, tier: &Tier) -> Vec<Case> {
         }
     }
     cases.extend(wide_cases(rng, tier, "mean", &["mean", "weight"]));
+    {
+        let n = *rng.pick(&[2usize, 3, 4, 7]);
+        cases.extend(long_cases(rng, &[format!("mean N={}", n)]));
+    }
     // machine integers whose window sums all fit while larger intermediate sums would not: every sample lies within
     // +-(i64::MAX / N), so any N consecutive samples sum within range (the arithmetic the property prescribes -
     // subtract the evicted sample, then add the new one - never leaves it either); "the sample type's own
@@ -515,7 +539,7 @@ pub fn try_exec(it: &mut Interp, line: &str, trace: &mut Vec<String>) -> Option<
     it.exec(line).ok()
 }
 
-fn deque_inject_cases(rng: &mut Rng, tier: &Tier, kind: &str, cases: &mut Vec<Case>) {
+pub(crate) fn deque_inject_cases(rng: &mut Rng, tier: &Tier, kind: &str, cases: &mut Vec<Case>) {
     // run the real filter from Default, read its guts, shift all timestamps so that `time` sits at
     // usize::MAX - j, re-inject through FromGuts and continue across the rebase
     for n in 1..=6usize {
@@ -605,6 +629,10 @@ pub fn gen_deque(rng: &mut Rng, tier: &Tier) -> Vec<Case> {
     deque_inject_cases(rng, tier, "max", &mut cases);
     deque_inject_cases(rng, tier, "min", &mut cases);
     cases.extend(small_int_cases(rng, tier, &["max", "min", "bounds"]));
+    {
+        let n = *rng.pick(&[1usize, 2, 3, 5]);
+        cases.extend(long_cases(rng, &[format!("max N={}", n), format!("min N={}", n), format!("bounds N={}", n)]));
+    }
     cases.extend(wide_cases(rng, tier, "max", &["time"]));
     cases.extend(wide_cases(rng, tier, "min", &["time"]));
     cases
@@ -698,6 +726,8 @@ pub fn gen_conv(rng: &mut Rng, tier: &Tier) -> Vec<Case> {
         }
     }
     cases.extend(wide_cases(rng, tier, "delay", &[]));
+    let dn = rng.range(1, 5);
+    cases.extend(long_cases(rng, &["convolve c=1,-2,3".to_string(), format!("delay N={}", dn)]));
     cases
 }
 
@@ -1140,6 +1170,23 @@ pub fn gen_reset(rng: &mut Rng, tier: &Tier) -> Vec<Case> {
             cases.push(c);
         }
     }
+    // the generic filters at float types: reset, then bit for bit what a freshly constructed filter answers
+    for _ in 0..tier.n(60, 600) {
+        let t = if rng.chance(3, 4) { "f64" } else { "f32" };
+        let mut c = vec![format!("new 1 {}", float_kind_line(rng, t))];
+        for _ in 0..rng.range(1, 9) {
+            c.push(format!("f 1 {}", float_sample(rng, t)));
+        }
+        c.push("reset 1".into());
+        c.push("fresh 1 2".into());
+        for _ in 0..rng.range(2, 8) {
+            let x = float_sample(rng, t);
+            c.push(format!("f 1 {}", x));
+            c.push(format!("f 2 {}", x));
+            c.push("same 1 2 C12.reset-eq-fresh".into());
+        }
+        cases.push(c);
+    }
     // composite filters keep a copy of a parameter inside each inner filter; the state is public, so a filter may be
     // handed inner filters whose copy differs from its own configuration. A freshly constructed filter derives the
     // inner copies from its configuration, so a reset one must as well.
@@ -1171,6 +1218,33 @@ pub fn gen_reset(rng: &mut Rng, tier: &Tier) -> Vec<Case> {
         cases.push(c);
     }
     cases
+}
+
+/// a generic filter at a float type (bit-pattern protocol): construction line and whether it takes gains
+fn float_kind_line(rng: &mut Rng, t: &str) -> String {
+    let g = |rng: &mut Rng| fbits(t, *rng.pick(&[0.1, 0.25, 0.5, 0.3, 0.9, 1.0]));
+    match rng.below(8) {
+        0 => format!("mean N={} T={}", rng.range(2, 5), t),
+        1 => format!("meanvar N={} T={}", rng.range(2, 5), t),
+        2 => format!("delay N={} T={}", rng.range(1, 4), t),
+        3 => format!("emeanvar w={} T={}", g(rng), t),
+        4 => format!("kalman r={} q={} a={} b={} c={} T={}", g(rng), g(rng), fbits(t, 1.0), fbits(t, 0.0), fbits(t, 1.0), t),
+        5 => format!("ema w={} T={}", g(rng), t),
+        6 => format!("emedian pre={} mid={} post={} T={}", g(rng), g(rng), g(rng), t),
+        _ => format!("alphabeta alpha={} beta={} T={}", g(rng), g(rng), t),
+    }
+}
+/// samples whose sums and products round: non-dyadic values at mixed magnitudes
+fn float_sample(rng: &mut Rng, t: &str) -> String {
+    let x = match rng.below(6) {
+        0 => 1e16,
+        1 => -1e16,
+        2 => rng.range(-1000, 1000) as f64 / 7.0,
+        3 => rng.range(-9, 9) as f64 * 0.1,
+        4 => 1.0,
+        _ => rng.range(-100_000, 100_000) as f64 * 1e-3,
+    };
+    fbits(t, x)
 }
 
 /// C20: copies (clone / guts round trip) continue identically and independently; cache transparent
@@ -1261,6 +1335,26 @@ pub fn gen_copy(rng: &mut Rng, tier: &Tier) -> Vec<Case> {
             }
             cases.push(c);
         }
+    }
+    // the generic filters at float types: a copy continues with EXACTLY the original's outputs — bit for bit, on samples
+    // whose arithmetic rounds (whatever a filter's outputs depend on, a copy must carry all of it)
+    for _ in 0..tier.n(120, 1200) {
+        let t = if rng.chance(3, 4) { "f64" } else { "f32" };
+        let mut c = vec![format!("new 1 {}", float_kind_line(rng, t))];
+        for _ in 0..rng.range(3, 14) {
+            c.push("clone 1 2".into());
+            c.push("gutsrt 1 3".into());
+            c.push("fresh 1 5".into());
+            c.push("clonefrom 5 1".into());
+            let x = float_sample(rng, t);
+            for id in [2, 3, 5, 1] {
+                c.push(format!("f {} {}", id, x));
+            }
+            c.push("same 1 2 C20.copy-continues".into());
+            c.push("same 1 3 C20.copy-continues".into());
+            c.push("same 1 5 C20.copy-continues".into());
+        }
+        cases.push(c);
     }
     cases
 }
